@@ -83,7 +83,8 @@ func runR03_2(c *Ctx, r *R) {
 		{"conn.receiveLoop", "", []string{"conn.run"}},
 	}
 	funcs := c.SrcFuncs("mpx")
-	for _, t := range table {
+	// callers of a function of package mpx (by Type.method name) or of a labelled call
+	callersOf := func(callee, label string) []string {
 		var callers []string
 		for _, fn := range funcs {
 			pos := c.Fset.Position(fn.Pos())
@@ -92,11 +93,11 @@ func runR03_2(c *Ctx, r *R) {
 			}
 			for _, call := range callsIn(fn, false) {
 				hit := false
-				if t.callee != "" {
-					if o := calleeObj(call); o != nil && o.Pkg() != nil && o.Pkg().Path() == pkgPath("mpx") && objName(o) == t.callee {
+				if callee != "" {
+					if o := calleeObj(call); o != nil && o.Pkg() != nil && o.Pkg().Path() == pkgPath("mpx") && objName(o) == callee {
 						hit = true
 					}
-				} else if calleeLabel(call) == t.label {
+				} else if calleeLabel(call) == label {
 					hit = true
 				}
 				if hit {
@@ -104,11 +105,11 @@ func runR03_2(c *Ctx, r *R) {
 				}
 			}
 			// method values (c.receiveLoop passed to async.RunVoid)
-			if t.callee != "" {
+			if callee != "" {
 				allInstrs(fn, func(i ssa.Instruction) {
 					if mc, ok := i.(*ssa.MakeClosure); ok {
 						if f2, ok := mc.Fn.(*ssa.Function); ok && strings.HasSuffix(f2.Name(), "$bound") {
-							if o, ok := f2.Object().(*types.Func); ok && objName(o) == t.callee {
+							if o, ok := f2.Object().(*types.Func); ok && objName(o) == callee {
 								callers = append(callers, strings.TrimPrefix(fnKey(fn), "mpx."))
 							}
 						}
@@ -116,15 +117,44 @@ func runR03_2(c *Ctx, r *R) {
 				})
 			}
 		}
-		callers = uniq(callers)
+		return uniq(callers)
+	}
+	for _, t := range table {
+		callers := callersOf(t.callee, t.label)
 		name := t.callee
 		if name == "" {
 			name = t.label
 		}
 		key := "mpx." + name + "/callers"
+		// a caller outside the list is a helper of a listed one when it is unexported and is itself called only
+		// from listed functions (conn.run -> conn.runLoops -> receiveLoop): the direction still has one owner
+		var viaHelper func(cl string, depth int) bool
+		viaHelper = func(cl string, depth int) bool {
+			base := strings.SplitN(cl, "$", 2)[0]
+			if in(t.allowed, base) {
+				return true
+			}
+			m := base[strings.LastIndex(base, ".")+1:]
+			if depth >= 3 || m == "" || token.IsExported(m) {
+				return false
+			}
+			up := callersOf(base, "")
+			if len(up) == 0 {
+				return false
+			}
+			for _, u := range up {
+				if strings.SplitN(u, "$", 2)[0] == base {
+					continue
+				}
+				if !viaHelper(u, depth+1) {
+					return false
+				}
+			}
+			return true
+		}
 		var bad []string
 		for _, cl := range callers {
-			if !in(t.allowed, strings.SplitN(cl, "$", 2)[0]) {
+			if !viaHelper(cl, 0) {
 				bad = append(bad, cl)
 			}
 		}
